@@ -99,7 +99,7 @@ impl B {
     }
 }
 
-pub const ALL_PROPS: &[&str] = &["C01", "C02", "C03", "C04", "C05", "C06", "C07", "C08", "C10", "C15", "C17", "C18", "C20"];
+pub const ALL_PROPS: &[&str] = &["C01", "C02", "C03", "C04", "C05", "C06", "C07", "C08", "C09", "C10", "C15", "C17", "C18", "C20"];
 
 /// class for the output-elision differential (C04): extended class plus the eliding forms
 fn k04() -> en::Class {
@@ -261,6 +261,10 @@ pub fn units(prop: &str, tier: Tier) -> Option<Vec<Unit>> {
                 class("knd-nested-delimiters", &en::k_nd(), pick(3, 4)).alpha(&BRACKETS, pick(4, 5)).alarm(alarm).unit(),
             ]
         }
+        "C09" => eng_pratt::units(tier)
+            .into_iter()
+            .map(|u| Unit::Custom { name: u.name.clone(), run: Box::new(move |cx| eng_pratt::run_unit(&u, cx)) })
+            .collect(),
         "C10" => {
             let alarm = ACC | VAL | EXT | EMI | PSP | MAL;
             let k = en::k01();
